@@ -157,7 +157,7 @@ func (gc *GopCache) Clear() {
 func (gc *GopCache) feedLastGop(msg base.RtmpMsg, b []byte) bool {
 	if !gc.isGopRingEmpty() {
 		gopPos := (gc.gopRingLast - 1 + gc.gopSize) % gc.gopSize
-		if gc.gopRing[gopPos].len() <= gc.singleGopMaxFrameNum || gc.singleGopMaxFrameNum == 0 {
+		if gc.gopRing[gopPos].len() < gc.singleGopMaxFrameNum || gc.singleGopMaxFrameNum == 0 {
 			gc.gopRing[gopPos].Feed(msg, b)
 		} else {
 			return false
